@@ -638,6 +638,16 @@ BATCH = 10
 
 
 def work(args):
+    """Worker entry: never lets an exception cross the process boundary (unpicklable exceptions hang the pool)."""
+    try:
+        return _work(args)
+    except BaseException as e:  # noqa
+        import traceback
+        return [], [(f"worker for {args[0]} d={args[1]} failed: {type(e).__name__}: {e}"[:300],
+                     {"case": {"alg": args[0], "d": args[1], "chunk": [args[5], args[6]]}, "traceback": traceback.format_exc()[-1500:]})], []
+
+
+def _work(args):
     """Simulate one chunk of a configuration; returns plain data (runs in a worker process)."""
     al, d, seed, quick, ci, lo, hi, extras = args
     w, groups, exact = plan(al, d, seed, quick)
@@ -741,8 +751,9 @@ def run(rep, tier, rng):
             for k, lo in enumerate(range(0, len(groups), chunk)):
                 tasks.append((al, d, seed, quick, ci, lo, lo + chunk, k == 0 and (al == "AHrr" or d == 16)))
             ci += 1
-    with mp.get_context("fork").Pool(min(16, len(tasks))) as pool:
-        results = pool.map(work, tasks, chunksize=1)
+    from concurrent.futures import ProcessPoolExecutor
+    with ProcessPoolExecutor(min(16, len(tasks)), mp_context=mp.get_context("fork")) as pool:
+        results = list(pool.map(work, tasks))     # a dying worker raises BrokenProcessPool instead of hanging
 
     exprs, meta = [], []
     for cases, viols, plain in results:
